@@ -215,7 +215,14 @@ static std::string run(const std::vector<std::string> &t) {
     if (op == "size") { needFree(1); slot(1) = new Arr((size_t) num(2)); return finish("ok"); }
     if (op == "fill") {
         needFree(1);
-        { Elem v(mkElem(num(3))); slot(1) = new Arr((size_t) num(2), v); }
+        // the fill value in every value category (chosen by the value, so a case always takes the same route): a named object,
+        // a temporary, an object the caller moves from
+        {
+            long fv = num(3);
+            if (fv % 3 == 0) { Elem v(mkElem(fv)); slot(1) = new Arr((size_t) num(2), v); }
+            else if (fv % 3 == 1) slot(1) = new Arr((size_t) num(2), mkElem(fv));
+            else { Elem v(mkElem(fv)); slot(1) = new Arr((size_t) num(2), std::move(v)); }
+        }
         return finish("ok");
     }
     if (op == "dflt") { needFree(1); slot(1) = new Arr(); return finish("ok"); }
@@ -231,7 +238,13 @@ static std::string run(const std::vector<std::string> &t) {
 
     Arr &a = obj(1);
     if (op == "resize") { a.resize((size_t) num(2)); return finish("ok"); }
-    if (op == "resizev") { { Elem v(mkElem(num(3))); a.resize((size_t) num(2), v); } return finish("ok"); }
+    if (op == "resizev") {
+        long fv = num(3);
+        if (fv % 3 == 0) { Elem v(mkElem(fv)); a.resize((size_t) num(2), v); }
+        else if (fv % 3 == 1) a.resize((size_t) num(2), mkElem(fv));
+        else { Elem v(mkElem(fv)); a.resize((size_t) num(2), std::move(v)); }
+        return finish("ok");
+    }
     if (op == "resizeself") { a.resize((size_t) num(2), a[(size_t) num(3)]); return finish("ok"); }
     if (op == "resizefrom") { a.resize((size_t) num(2), obj(3)[(size_t) num(4)]); return finish("ok"); }
     if (op == "set") { a[(size_t) num(2)] = mkElem(num(3)); return finish("ok"); }
